@@ -3,7 +3,7 @@
 import copy
 import functools
 import inspect
-from typing import Callable
+from typing import Any, Callable
 
 from cached_property import cached_property
 from lazy_object_proxy import Proxy
@@ -15,9 +15,22 @@ from spec_classes.utils.mutation import (
     mutate_attr,
     mutate_value,
     prepare_attr_value,
+    protect_via_deepcopy,
 )
 
 from .base import AttrMethodDescriptor
+
+
+def _current_value(attr_spec: Attr, instance: Any, inplace: bool) -> Any:
+    """
+    The value currently held by `instance` for `attr_spec`, protected from
+    mutation (unless we are mutating in place or the attribute is not to be
+    copied) so that nothing derived from it is shared with `instance`.
+    """
+    value = getattr(instance, attr_spec.name, MISSING)
+    if inplace or attr_spec.do_not_copy:
+        return value
+    return protect_via_deepcopy(value)
 
 
 class WithAttrMethod(AttrMethodDescriptor):
@@ -124,7 +137,7 @@ class UpdateAttrMethod(AttrMethodDescriptor):
             attr_spec,
             self,
             _new_value=mutate_value(
-                old_value=Proxy(lambda: getattr(self, attr_spec.name, MISSING)),
+                old_value=Proxy(lambda: _current_value(attr_spec, self, _inplace)),
                 new_value=_new_value,
                 constructor=attr_spec.constructor,
                 expected_type=attr_spec.type,
@@ -206,7 +219,7 @@ class TransformAttrMethod(AttrMethodDescriptor):
             attr_spec,
             self,
             _new_value=mutate_value(
-                old_value=Proxy(lambda: getattr(self, attr_spec.name, MISSING)),
+                old_value=Proxy(lambda: _current_value(attr_spec, self, _inplace)),
                 transform=_transform,
                 constructor=attr_spec.constructor,
                 expected_type=attr_spec.type,
